@@ -75,3 +75,16 @@ type AnonTagged struct {
 	*PlainDep `wire:""`
 	IBs       `wire:",required=false"`
 }
+
+// Providers whose func-tag methods take arguments: a func point asks whether the method exists (and, with
+// returns=*, nothing more) - the container never needs to call these.
+type ArgMark1 struct{ Nm string }
+type ArgMark2 struct{ Nm string }
+type ArgKind struct{ Nm string }
+
+func (a *ArgMark1) Naming() string      { return a.Nm }
+func (a *ArgMark1) Mark(n int)          {}
+func (a *ArgMark2) Naming() string      { return a.Nm }
+func (a *ArgMark2) Mark(xs ...string)   {}
+func (a *ArgKind) Naming() string       { return a.Nm }
+func (a *ArgKind) Kind(p string) string { return p + "kind" }
